@@ -231,7 +231,31 @@ func c16R1(p *core.Program, r *core.Report) {
 	// (f) filter
 	gtOK, cmpOK := false, false
 	var appendCall *ssa.Call
-	for _, cs := range core.Calls(mig, false) {
+	// the selection of versions may sit in migrate() itself or in a helper it hands (from, to) to: a parameter of the
+	// helper stands for the argument it was called with
+	actual := func(v ssa.Value, ec core.EffCall) ssa.Value {
+		prm, ok := v.(*ssa.Parameter)
+		if !ok || len(ec.Chain) != 1 {
+			return v
+		}
+		oc, ok := ec.Outer.(ssa.CallInstruction)
+		if !ok {
+			return v
+		}
+		for i, fp := range ec.Chain[0].Params {
+			if fp == prm && i < len(oc.Common().Args) {
+				return oc.Common().Args[i]
+			}
+		}
+		return v
+	}
+	var sortFns []*ssa.Function
+	sortFns = append(sortFns, mig.AnonFuncs...)
+	for _, ec := range core.EffectiveCalls(mig, 1) {
+		cs := ec.Inner
+		if len(ec.Chain) == 1 {
+			sortFns = append(sortFns, ec.Chain[0].AnonFuncs...)
+		}
 		o := core.CalleeObj(cs.Common())
 		if o == nil {
 			if b, ok := cs.Common().Value.(*ssa.Builtin); ok && b.Name() == "append" {
@@ -242,13 +266,13 @@ func c16R1(p *core.Program, r *core.Report) {
 		switch core.ObjName(o) {
 		case "github.com/Masterminds/semver.Version.GreaterThan":
 			a := cs.Common().Args
-			if a[1] == ssa.Value(from) {
+			if actual(a[1], ec) == ssa.Value(from) {
 				// result must be a controlling condition (true edge) of the append
 				gtOK = true
 			}
 		case "github.com/Masterminds/semver.Version.Compare":
 			a := cs.Common().Args
-			if a[1] == ssa.Value(to) {
+			if actual(a[1], ec) == ssa.Value(to) {
 				for _, ref := range *cs.Instr.(*ssa.Call).Referrers() {
 					if b, ok := ref.(*ssa.BinOp); ok && b.Op == token.LEQ {
 						if k, isC := core.ConstInt(b.Y); isC && k == 0 {
@@ -327,7 +351,7 @@ func c16R1(p *core.Program, r *core.Report) {
 	r.Check(lookupOK, "R1", "migrate/applies-registered-function", p.Pos(mig.Pos()), "registered[version] with the same version", "the function applied is not the one registered for the version that is stamped")
 	// (h) ascending sort
 	asc := false
-	for _, an := range mig.AnonFuncs {
+	for _, an := range sortFns {
 		for _, cs := range core.Calls(an, false) {
 			if o := core.CalleeObj(cs.Common()); o != nil && core.ObjName(o) == "github.com/Masterminds/semver.Version.LessThan" {
 				// receiver indexed by first param, argument by second
